@@ -20,7 +20,8 @@ def rand_doc(rng):
         d = {}
         for _ in range(n):
             name = rng.choice(["pkg-%d-1.0-0.tar.bz2" % rng.randrange(50), "a.conda", gen.rand_str(rng, 6) or "x", "é-%d.conda" % rng.randrange(9)])
-            d[name] = rng.choice([{"name": "p", "version": "1.%d" % rng.randrange(9), "depends": ["a >=1"], "size": rng.randrange(10**6)}, gen.rand_json(rng, 3, [12]), {}, {"x": 1.5, "é": None}])
+            d[name] = rng.choice([{"name": "p", "version": "1.%d" % rng.randrange(9), "depends": ["a >=1"], "size": rng.randrange(10**6)}, gen.rand_json(rng, 3, [12]), {}, {"x": 1.5, "é": None},
+                                  {"type": "root", "name": "p"}, {"type": "key_mgr", "version": 1, "delegations": {}}])   # look like, but are not, delegating metadata
         return d
     doc = {"info": {"subdir": "noarch"}, "packages": arts(rng.choice([0, 1, 2, 3, 8]))}
     if rng.random() < 0.7:
@@ -35,6 +36,11 @@ def rand_doc(rng):
         doc["signatures"] = {"stale.tar.bz2": {gen.key(3).hex: {"signature": "00" * 64}}, **({next(iter(doc["packages"])): {"old": 1}} if doc["packages"] else {})}
     if rng.random() < 0.4:
         doc[rng.choice(["repodata_version", "removed", "é", "zz"])] = gen.rand_json(rng, 2, [6])
+    if rng.random() < 0.35:
+        # other top-level sections that *name* artifacts (withdrawn / revoked / pinned lists as real indexes carry them): every listed artifact is signed all the same
+        names = list(doc["packages"]) + list(doc.get("packages.conda", {}))
+        if names:
+            doc[rng.choice(["removed", "removed", "removed", "revoked", "yanked", "info"])] = rng.choice([rng.sample(names, rng.randint(1, len(names))), names[:1], {n: True for n in names[:2]}, names[0]])
     items = list(doc.items())
     rng.shuffle(items)
     return dict(items)
